@@ -29,6 +29,7 @@ def run_suite(pid, suite, tier, seed, binary):
                                 dict(suite=suite["name"], seed=seed, stderr=e.err[-3000:], last_cases=[c[0] for c in e.cases[-3:]]),
                                 failing_input=suite.get("crash_is_violation", False)))
         return cov, findings
+    panics = stat.pop("_panics", {})
     tag = "%s_%s" % (pid, suite["name"])
     try:
         codes = core.eval_cases(tag, suite["imports"], suite["check"], suite["case_type"], cases)
@@ -46,8 +47,19 @@ def run_suite(pid, suite, tier, seed, binary):
     cov["distinct_cases"] = len({t for _, _, t in cases})
     cov["harness_stat"] = stat
     cov["samples"] = [dict(case=idx, steps=n, term=term[:700]) for idx, n, term in cases[:2]]
-    bad = [(idx, n, term) for idx, n, term in cases if codes[idx] // 4 != 0]
+    bad = [(idx, n, term) for idx, n, term in cases if codes[idx] // 4 != 0 and idx not in panics]
     cov["disagreements"] = len(bad)
+    cov["implementation_panics"] = len(panics)
+    for idx in sorted(panics)[:2]:
+        step, msg = panics[idx]
+        n, term = [(n, t) for i, n, t in cases if i == idx][0]
+        agree = codes[idx] // 4 == 0
+        findings.append(Finding(
+            "crash", "%s: the implementation PANICKED in case %d at step %d (%s); the model proves this step cannot panic%s" % (
+                suite["name"], idx, step, msg[:200], "" if agree else "; the trace before it already disagrees with the model at step %d" % (codes[idx] // 4 - 1)),
+            dict(suite=suite["name"], harness_suite=suite["harness"], seed=seed, count=count, case=idx, keep=None, panic_at_step=step,
+                 panic_message=msg, trace_before_panic=term[:20000], extra=suite.get("extra", {})),
+            failing_input=True))
     for idx, n, term in bad[:3]:
         findings.append(investigate(pid, suite, seed, count, binary, idx, n, term, codes[idx] // 4 - 1))
     return cov, findings
@@ -199,8 +211,11 @@ def do_replay(pid, cfg, path):
             core.coq_build(["Model/UdpCheck.vo"])
             binary = core.build_harness()
         suite = [s for s in cfg["suites"] if s["name"] == payload["suite"]][0]
-        cs, _ = core.run_harness(binary, payload["harness_suite"], payload["seed"], payload["count"], extra=payload.get("extra"),
-                                 only=payload["case"], keep=payload["keep"])
+        cs, st = core.run_harness(binary, payload["harness_suite"], payload["seed"], payload["count"], extra=payload.get("extra"),
+                                  only=payload["case"], keep=payload["keep"])
+        if st.get("_panics"):
+            print("implementation PANICKED: %s" % (st["_panics"],))
+            return 1
         print("implementation trace (Coq term):")
         print(cs[0][2])
         codes = core.eval_cases(pid + "_replay", suite["imports"], suite["check"], suite["case_type"], cs, shards=1)
